@@ -281,9 +281,8 @@ pub fn finish(report: Report, collector: &Collector) -> i32 {
     let mut known_hits: BTreeMap<usize, (u64, String)> = BTreeMap::new();
     let mut unmatched: Vec<&Violation> = vec![];
     for v in vs.iter() {
-        if v.property != report.property {
-            continue;
-        }
+        // violations of a neighbouring property observed by this check's subject runs are
+        // reported too (under their own property id): nothing that was seen is dropped
         let mut hit = None;
         for (i, f) in findings.iter().enumerate() {
             if f.status != "open" || f.property != v.property || f.kind != v.kind || !site_matches(&f.site, &v.site) {
